@@ -3,7 +3,7 @@
    src/algorithm/sort/heap_select.rs, src/algorithm/neighbour/{linear_search,cover_tree}.rs and
    src/neighbors/*.rs.  Distances live in any type with a total preorder (`preorder ltb leb`). *)
 From Coq Require Import List Arith Bool Permutation.
-From SC Require Import C04.Model C04.Proofs_Heap C04.Proofs_Linear.
+From SC Require Import C04.Model C04.Proofs_Heap C04.Proofs_Linear C04.Proofs_Cover.
 Import ListNotations.
 
 (* HeapSelection: after any non-empty add sequence `l` into a heap of capacity k >= 1 the array holds
@@ -43,6 +43,28 @@ Proof.
   intros. split; intros.
   - apply linear_find_error.
   - apply linear_radius_error.
+Qed.
+
+
+(* CoverTree::find_radius on EVERY well-formed tree (wf_root: every node's max_dist bounds the distance
+   from its point to every point below it, the first child repeats its parent's point, the root is
+   internal and the leaves enumerate 0..n-1 once each): for any distance that is symmetric and obeys
+   the triangle inequality (with a monotone addition), and r > 0, the result is exactly the set of
+   points with distance <= r, each with its true index and distance.  `wf_root` is the boolean that the
+   correspondence check evaluates on every tree the implementation builds. *)
+Theorem C04_cover_radius_exact :
+  forall (D : Type) (ltb leb : D -> D -> bool) (plus : D -> D -> D), preorder ltb leb ->
+  (forall a b c d, leb a b = true -> leb c d = true -> leb (plus a c) (plus b d) = true) ->
+  forall (P : Type) (dist : P -> P -> D) (pt : nat -> P) (q : P),
+  (forall a b, dist a b = dist b a) ->
+  (forall a b c, leb (dist a c) (plus (dist a b) (dist b c)) = true) ->
+  forall (dzero r : D) n (root : ctree D),
+  wf_root leb (dpp dist pt) n root = true -> leb r dzero = false ->
+  exists res, cover_find_radius leb plus dzero (dq dist pt q) root r = Some res /\
+              is_ball leb (dq dist pt q) n r res.
+Proof.
+  intros D ltb leb plus PO PM P dist pt q SY TR dzero r n root.
+  exact (cover_radius_exact ltb leb plus PO PM dist pt q SY TR dzero r n root).
 Qed.
 
 (* the hypotheses are satisfiable: nat with <, <= is a preorder; a concrete run *)
